@@ -233,3 +233,35 @@ func ZZVerif_C08_UpdatableBMC() {
 		zzverif.Reach("unwritten")
 	}
 }
+
+// ZZVerif_C08_StorageError: two leaves are appended (and two positions of an updatable tree written); then the database handle is
+// closed. Every proof / leaf query for a recorded root now reports an error - never a proof of zero hashes that does not lead
+// to the root.
+func ZZVerif_C08_StorageError() {
+	database := zzOpenTreeDB()
+	ctx := context.Background()
+	at := NewAppendOnlyTree(database, "")
+	var roots [2]common.Hash
+	for i := 0; i < 2; i++ {
+		v := common.Hash(zzverif.Hash("leaf"))
+		zzverif.Assume(v != common.Hash{})
+		tx, err := db.NewTx(ctx, database)
+		zzverif.Assert("begin", err == nil)
+		zzverif.Assert("AddLeaf", at.AddLeaf(tx, uint64(i+1), 0, types.Leaf{Index: uint32(i), Hash: v}) == nil)
+		zzverif.Assert("commit", tx.Commit() == nil)
+		r, err := at.GetLastRoot(nil)
+		zzverif.Assert("root", err == nil)
+		roots[i] = r.Hash
+	}
+	zzverif.Assume(roots[0] != roots[1])
+	proof, err := at.GetProof(ctx, 0, roots[1])
+	zzverif.Assert("proof before the fault", err == nil && CalculateRoot(func() common.Hash { l, _ := at.GetLeaf(database, 0, roots[1]); return l }(), proof, 0) == roots[1])
+	zzverif.Assert("close", database.Close() == nil)
+	_, err = at.GetProof(ctx, 0, roots[1])
+	zzverif.Assert("storage unavailable: GetProof reports an error", err != nil)
+	_, err = at.GetLeaf(database, 1, roots[1])
+	zzverif.Assert("storage unavailable: GetLeaf reports an error", err != nil)
+	_, err = at.GetRootByIndex(ctx, 0)
+	zzverif.Assert("storage unavailable: GetRootByIndex reports an error", err != nil)
+	zzverif.Reach("end")
+}
